@@ -20,7 +20,9 @@ def run(ctx):
                         "with PRIVMSG/NOTICE to mixed target lists; a case is one accepted target; distinct = "
                         "(verb, status-prefixed?, audience size class 0..3+, sender is member) plus the "
                         "target-kind combinations listed under target_shapes; every socket's inbox between two "
-                        "barriers is compared with the model's multiset of (prefix, verb, target, text)")
+                        "barriers is compared with the model's multiset of (prefix, verb, target, text); plus floods of 400-6000 pipelined "
+                        "numbered messages to a prompt reader and to a reader with a 4 KB receive buffer that reads nothing until the "
+                        "flood is over: every copy exactly once, in order, truly attributed")
     sends = sum(n for s, n in shapes.items() if s.startswith(("privmsg:", "notice:")))
     tshapes = {s for s in shapes if s.startswith(("privmsg:", "notice:"))}
     for s in tshapes:
@@ -28,6 +30,29 @@ def run(ctx):
     res.extra["sends"] = sends
     res.extra["target_shapes"] = sorted(tshapes)[:60]
     res.floor("sends", sends, 300)
+    # drain orders: pipelined floods to a prompt reader and to one that reads nothing until the flood is over
+    # (its queue backs up inside the server), and numbered per-sender flows: every copy once, in order, attributed
+    import multiprocessing
+    from .. import storm
+    from ..runner import Finding
+    binary, hooks = ctx.binary()
+    jobs = [(binary, hooks, s, 0, None, None, 6 if ctx.quick else 40, ctx.quick, ["flood", "flood", "fifo"])
+            for s in ctx.seeds(8, "flood")]
+    with multiprocessing.Pool(8) as pool:
+        fouts = pool.map(storm.worker, jobs)
+    fl = 0
+    for o in fouts:
+        fl += o["rounds"]
+        res.evaluations += o["rounds"]
+        res.extra["flood_events_recorded"] = res.extra.get("flood_events_recorded", 0) + o["events"]
+        for sig, detail in o["findings"]:
+            res.findings.append(Finding("c01:" + sig, detail, {"engine": "storm-flood"}))
+        if o["inconclusive"]:
+            res.inconclusive += 1
+            res.inconclusive_notes.append(o["inconclusive"])
+    res.extra["flood_and_flow_rounds"] = fl
+    res.distinct.add("flood:late-reader")
+    res.distinct.add("flood:prompt-reader")
     common.sample_histories(res, results, ("PRIVMSG", "NOTICE"))
     if not res.samples:
         res.add_sample({"shapes": sorted(tshapes)[:10]})
